@@ -35,6 +35,34 @@ def assembled_texts(rnd, n):
     return out
 
 
+def pattern_texts(rnd, npools):
+    """every arrangement (length 3 and 4) of a small pool of related vectors: A, A in another spelling, a different vector B with the
+    same base score as A (it differs in optional metrics only, or is A's 3.0 / 3.1 twin), an unrelated C"""
+    import itertools
+    out = []
+    for k in range(npools):
+        ver = "23"[k % 2]
+        _, minor, g, a = corpus.random_vector(rnd, ver, p_opt=0.15)
+        order = list(g)
+        rnd.shuffle(order)
+        a2 = corpus.spell(ver, minor, g, order)
+        gb = dict(g)
+        opt = [m for m in corpus.ORDER[ver] if m not in corpus.MAND[ver]]
+        if ver == "3" and k % 4 == 1:
+            b = corpus.spell(ver, 1 - minor, g)
+        else:
+            m = rnd.choice(opt[:3])             # a temporal metric: the base score stays what it is
+            gb[m] = rnd.choice([v for v in corpus.VALS[ver][m] if v != corpus.ND[ver] and v != g.get(m)])
+            b = corpus.spell(ver, minor, gb)
+        c_ = corpus.random_vector(rnd, rnd.choice("23"))[3]
+        pool = [a, a2, b, c_]
+        sep = rnd.choice([" ", "\n", ", ", " and "])
+        for n in (3, 4):
+            for combo in itertools.product(pool, repeat=n):
+                out.append(sep.join(combo))
+    return out
+
+
 def run(prop, tier, seed):
     c = Check(prop, tier, seed)
     rnd = random.Random(seed * 1000003 + 13)
@@ -60,6 +88,7 @@ def run(prop, tier, seed):
                 s_ = corpus.random_vector(rnd, ver)[3]
                 ext += [dl + s_, s_ + dl, "300" + dl + s_ + dl + "ok"]
         ext += [x for v in corpus.prefix_variants(rnd) for x in (v, "see " + v + ".")]
+        ext += pattern_texts(rnd, 6 if not big else 60)
         texts = gen + ext + assembled_texts(rnd, 4000 if not big else 80000) + corpus.arbitrary_text(rnd, 1500 if not big else 20000)
         texts = list(dict.fromkeys(texts))
         items = [{"op": "text", "text": esc(t)} for t in texts]
